@@ -991,7 +991,7 @@ fn cmd_run(cfg: &Cfg) -> i32 {
             "components": {
                 "real": ["o2o-impl parse/validate/expand built from the working tree (plain build: guard off = shipped code; hooked build: --cfg o2o_verif)", "syn 1.0.109 / syn 2.x, quote, proc-macro2 (fallback mode, span-locations)", "std::collections::HashMap + RandomState/SipHash (plain build)", "glibc malloc, real threads"],
                 "simulated": ["OS entropy (getrandom)", "wall/monotonic clock", "pid", "environment block", "cwd", "argv", "address-space layout (ASLR off + seeded heap perturbation + env size)", "thread placement and order of expansions", "container hash seeds and iteration order policy (hooked build)"],
-                "rustc_tier": "real cargo + rustc + o2o-macros dylib under the shim (quick: one back-end, 3 runs per crate; thorough: both back-ends, 8 runs per crate)",
+                "rustc_tier": "real cargo + rustc + o2o-macros dylib under the shim (both back-ends; quick: 2 runs per crate + reversed source order; thorough: 8 runs per crate + reversed source order)",
             },
             "harness_determinism_guard": {"worlds_executed_twice": guard_worlds, "result": guard_note},
             "aslr_disabled_for_hosts": env.aslr_off,
